@@ -16,7 +16,7 @@ ASSUMPTIONS = [
     "bookkeeping (pixel scale, sample counts, binary mask, untouched original, identity for s = 1) is exact",
 ]
 
-SCALES = [0.5, 0.75, 1.0, 1.25, 1.5, 2.0, 2.5, 3.0, 4.0]
+SCALES = [0.5, 0.75, 1.0, 1.25, 1.5, 2.0, 2.5, 3.0, 4.0, 1.002, 0.999, 1.0001, 1.01, 1.6]
 
 
 @st.composite
@@ -38,7 +38,8 @@ def plane_case(draw, tier):
         quad = [(m / 4, n / 4), (3 * m / 4, 3 * n / 4), (m / 4, 3 * n / 4), (3 * m / 4, n / 4)]
         for j in range(nseg):
             blobs.append((quad[j][0] + rng.uniform(-0.4, 0.4), quad[j][1] + rng.uniform(-0.4, 0.4), sig))
-    ps = draw(gen.pos_log(1e-4, 1e-2))
+    # pixel scales from nanometres (sampled surfaces, detector-side planes) to decimetres
+    ps = draw(gen.pos_log(1e-4, 1e-2)) if draw(st.booleans()) else draw(gen.pos_log(1e-9, 1e-1))
     return {"shape": list(shape), "scale": s, "nseg": nseg, "blobs": [list(b) for b in blobs], "seed": k,
             "pixelscale": ps, "opd_waves": draw(st.sampled_from([0.0, 0.05, 0.2])),
             "via_resample": draw(st.sampled_from([False, False, True])), "cls": draw(st.sampled_from(["Pupil", "Plane"]))}
@@ -103,7 +104,7 @@ def rescale(case, ctx):
     ctx.tag("s<1" if s < 1 else ("s=1" if s == 1 else "s>1"), "noninteger_s" if s != round(s) else "integer_s",
             "odd" if m % 2 or n % 2 else "even", "nonsquare" if m != n else None,
             "segmented" if mask is not None else "monolithic", "resample" if case["via_resample"] else "rescale",
-            case["cls"])
+            case["cls"], f"ps:1e{int(np.floor(np.log10(ps)))}", "s_near_1" if 0 < abs(s - 1) < 0.02 else None)
     ctx.nontrivial_if(s != 1)
     with lentil_call("C17.build", "plane"):
         p = make_plane(case, amp, opd, mask)
